@@ -33,6 +33,7 @@ type op struct {
 	Dur  time.Duration
 	Node int
 	N    int
+	Cur  int // group: 1 = the group containing now, 2 = the next (pre-created) group
 }
 
 type plan struct {
@@ -61,7 +62,11 @@ func genPlan(t *rapid.T) interface{} {
 		switch k := rapid.IntRange(0, 19).Draw(t, l+".kind"); {
 		case k < 7:
 			o := op{Kind: "group", RP: rp}
-			switch rapid.IntRange(0, 3).Draw(t, l+".ok") {
+			switch rapid.IntRange(0, 5).Draw(t, l+".ok") {
+			case 4:
+				o.Cur = 1 // the group writes go to now (what truncation cuts)
+			case 5:
+				o.Cur = 2 // pre-created next group
 			case 0:
 				o.Nano = rapid.Int64Range(-2, 2).Draw(t, l+".ns") // at the expiry boundary +-
 			case 1:
@@ -74,7 +79,7 @@ func genPlan(t *rapid.T) interface{} {
 			p.Ops = append(p.Ops, op{Kind: "alterdur", RP: rp, Dur: rapid.SampledFrom([]time.Duration{0, 24 * time.Hour, 72 * time.Hour, 30 * 24 * time.Hour}).Draw(t, l+".dur")})
 		case k < 10:
 			p.Ops = append(p.Ops, op{Kind: "delgroup", RP: rp, N: rapid.IntRange(0, 5).Draw(t, l+".pick")})
-		case k < 11:
+		case k < 12:
 			p.Ops = append(p.Ops, op{Kind: "truncate"})
 		case k < 16:
 			p.Ops = append(p.Ops, op{Kind: "sleep", Dur: time.Duration(rapid.Int64Range(int64(time.Minute), int64(30*time.Hour)).Draw(t, l+".d"))})
@@ -302,6 +307,11 @@ func exec(run *core.Run, pl interface{}) {
 			now := time.Now()
 			end := now.Add(-dur).Add(o.Off).Add(time.Duration(o.Nano))
 			ts := end.Add(-time.Nanosecond)
+			if o.Cur == 1 {
+				ts = now
+			} else if o.Cur == 2 {
+				ts = now.Add(p.SGDur)
+			}
 			before := map[uint64]bool{}
 			w.mu.Lock()
 			for _, g := range rp.ShardGroups {
@@ -357,6 +367,17 @@ func exec(run *core.Run, pl interface{}) {
 			now := time.Now()
 			apply(func(x *meta.Data) error { x.TruncateShardGroups(now); return nil })
 			run.Logf("op%d truncate at now", i)
+			w.mu.Lock()
+			for _, db := range w.data.Databases {
+				for _, rp := range db.RetentionPolicies {
+					for _, g := range rp.ShardGroups {
+						if g.Truncated() && !g.Deleted() && rp.Duration != 0 {
+							run.Probe("finite-group-truncated")
+						}
+					}
+				}
+			}
+			w.mu.Unlock()
 		case "sleep":
 			time.Sleep(o.Dur)
 			run.Logf("op%d sleep %v", i, o.Dur)
@@ -463,7 +484,7 @@ func TestC17(t *testing.T) {
 		Bubble:         true,
 		Describe:       describe,
 		Tier:           "A",
-		RequiredProbes: []string{"group-marked-deleted", "local-shard-deleted", "duration-altered", "orphan-kept", "group-deleted-by-operator"},
+		RequiredProbes: []string{"group-marked-deleted", "local-shard-deleted", "duration-altered", "orphan-kept", "group-deleted-by-operator", "finite-group-truncated"},
 		Real:           []string{"retention.Service (run loop, ticker on the fake clock)", "meta.Data (ExpiredShardGroups, DeletedShardGroups, DeleteShardGroup, PruneShardGroups, CreateShardGroup, UpdateRetentionPolicy, TruncateShardGroups)"},
 		Stub:           []string{"TSDBStore (local shard set, DeleteShard with injected failures)", "meta client (serialised apply over real meta.Data, injected errors)"},
 		Assumptions:    []string{"the write-time cut-off ('a write is dropped as too old only if older than the retention period') is checked by C08's MapShards harness", "fault windows are short (<=3 calls); a shard whose deletion keeps failing for longer than the two-week pruning horizon is not explored"},
